@@ -89,6 +89,12 @@ class Tdmd(ApiImmut):
         nz = np.abs(lam_a) > 1e-8 * sc
         scale_m = max(float(np.max(np.abs(Phi))), 1e-300)
         if self.name == 'tdmd_exact':
+            # every non-zero eigenvalue has a mode (eigenvector of Y pinv(X), hence not the zero vector), however strongly damped it
+            # is: the residual relative to the norm of that mode does not depend on 1 / lambda
+            small = (np.abs(lam_a) > 1e-12 * sc) & ~nz
+            if np.any(small):
+                cn = np.max(np.abs(Phi[:, small]), axis=0)
+                c.check(self.api, 'strongly_damped_modes_present', bool(np.all(np.isfinite(cn)) and np.all(cn > 0)), tags, {'eigenvalues': lam_a[small], 'mode_norms': cn}, prop=P)
             # A = Y pinv(X) = (Y V S^-1) U^H is applied in factored form (N x N is never formed: tall grids); ||A||_2 = ||Y V S^-1||_2
             Af = Y @ Vh.conj().T @ np.diag(1.0 / s)
             R = Af @ (U.conj().T @ Phi) - Phi @ np.diag(lam_a)
